@@ -300,3 +300,10 @@ MUTANTS += [
          old="            with self._lock:\n                self._assert_not_finished()\n                self._operation.suboperations.append(suboperation)",
          new="            with self._lock:\n                self._operation.suboperations.append(suboperation)"),
 ]
+
+MUTANTS += [
+    # ---- reverts fix 81aecd7 (caught at least by the regression witness of that fix)
+    dict(name='c15_version_tables_not_type_checked', props=['C15'], file=CACHE,
+         old="        if (not isinstance(cache_json['funcVersions'], dict) or\n                not isinstance(cache_json['operationVersions'], dict)):\n            raise RuntimeError(\n                'Error parsing cache file {:s}'.format(filename))\n",
+         new=""),
+]
